@@ -40,6 +40,10 @@ INFO = {
    text="Lean 4 theorems over a model of Action::from_args and eval_exprs with the core evaluator and the file system as parameters: when every earlier expression succeeds the output is exactly what the core returns for the LAST expression in the context the earlier ones left (newline iff requested, nothing for ()/empty); the first failing expression yields status 1, 'Error: msg' on stderr and nothing is evaluated after it; the context is threaded from each expression to the next; help wins; plain positional words are joined by single spaces into one expression. Tied to the Rust by running the built binary on random argument lists (positional / -e / -f / -- / existing and missing files / flags), stdin mode and 15 well-formed and damaged config files, comparing stdout, stderr and exit status with the model fed with fend_core results computed in-process.",
    note="Partial: the toml crate and the ConfigVisitor decision logic are not modelled in Lean — configuration behaviour (absent/malformed -> defaults + diagnostic; unknown keys warned; recognised keys applied) is checked only by the binary-level stream against a hand-written expectation table. Trusted: Lean kernel + 3 axioms, python runner, the in-process core as oracle for expression results.",
    technique="Lean 4 proofs over a parametric CLI model + differential runs of the built binary", ref="7/C19"),
+ "C17": dict(
+   text="Lean 4 theorems over exact rationals for ALL distributions and ALL binary operations: arithmetic on dice is the push-forward of the product measure (prob (bop f a b) z = sum over x,y with f x y = z of p_x p_y), the listed outcomes are pairwise distinct, total probability multiplies (so stays 1), and roll yields a listed outcome for EVERY value of the random source and EVERY threshold function (the floating-point step is a parameter), and always yields something. Tied to the Rust by evaluating all NdM (N<=4, M<=12; more in thorough) and random dice arithmetic through fend_core, comparing the printed distribution, mean(...) and roll(...) under a harness-controlled random function at 0, 2^32-1, every cumulative threshold +-1 and random points with exact convolution (Python Fractions) and with the Lean model.",
+   note="Partial: the two-decimal percentages come from f64 formatting (checked to within half a unit of the last digit against the exact value, not proved); the sampling threshold ((p as f64) * u32::MAX) as u32 is a parameter of the theorem and is reproduced with floats in the driver for the correspondence. new_die = N-fold convolution is checked by kernel decide on instances and by the correspondence run, not proved for all N, M. Trusted: Lean kernel + 3 axioms, harness.",
+   technique="Lean 4 proofs over a list-of-(outcome,probability) model with core Rat + differential correspondence incl. controlled random source", ref="7/C17"),
 }
 def main():
     hooks = subprocess.check_output("git -C /repo log --format=%H --grep='verif-hooks' --grep='verif hooks' -i", shell=True, text=True).split()
